@@ -77,7 +77,53 @@ def d1_inventory(chk, F: Facts, pid="C03", only_regions=None):
             chk.fail(rule, key, where, f"reviewed as a defect: {e['reason']}")
             continue
         chk.ok(rule, key, f"{where}: {kind} `{detail}` ×{len(ss)} — {e.get('verdict', 'discharged')}: {e['reason']}")
+        for req in e.get("requires", []):
+            for s_ in ss:
+                ok, why = check_requirement(F, F.funcs[s_["func"]], s_["block"], req)
+                chk.expect(ok, f"{pid}.D1-discharge", f"{key}|{req}", s_["where"],
+                           f"the invariant that discharges this {kind} (`{detail}` in {region}) no longer holds: {why} — reviewed reason: {e['reason']}",
+                           sample=f"{s_['where']}: {kind} `{detail}` discharged by {req}")
     return n_total, len(groups)
+
+
+def check_requirement(F, f, block, req):
+    """Machine-checkable discharge conditions of a reviewed failure site.
+       guard:<callee>:<true|false>   site is edge-dominated by that outcome of a test `callee(..)` in the same function
+       after:<callee>                site is dominated by a call to callee
+       between:<A>:<B>:<C>           every path from a call to A to a call to C passes through a call to B"""
+    from cfgq import calls_to, call_result_edges, must_pass
+    parts = req.split(":")
+    kind = parts[0]
+    if kind == "guard":
+        callee, pol = ":".join(parts[1:-1]), parts[-1]
+        cs = calls_to(f, callee)
+        if not cs:
+            return False, f"no test `{callee}` left in {f.key}"
+        for b, t in cs:
+            te, fe = call_result_edges(f, b)
+            for e in (te if pol == "true" else fe):
+                if f.edge_dominates(e, block):
+                    return True, ""
+        return False, f"the site is reachable without the `{callee}` == {pol} outcome"
+    if kind == "after":
+        callee = ":".join(parts[1:])
+        cs = calls_to(f, callee)
+        if any(f.node_dominates(b, block) for b, t in cs):
+            return True, ""
+        return False, f"the site is not preceded by a call to `{callee}` on every path"
+    if kind == "between":
+        rest = ":".join(parts[1:]).split("|")
+        a, b_, c = rest
+        A = [x for x, _ in calls_to(f, a)]
+        B = [x for x, _ in calls_to(f, b_)]
+        C = [x for x, _ in calls_to(f, c)]
+        if not A or not C:
+            return False, f"anchor calls `{a}` / `{c}` not found"
+        starts = [f.blocks[x]["term"].get("target") for x in A if f.blocks[x]["term"].get("target") is not None]
+        if must_pass(f, starts, B, C):
+            return True, ""
+        return False, f"a path from `{a}` reaches `{c}` without `{b_}`"
+    return False, f"unknown requirement {req}"
 
 
 def is_box_deref_site(F, s):
